@@ -237,12 +237,12 @@ brk("c06-swap-empty-constants", ["C06"], "src/query/condition.rs",
     """                ConditionType::Any => false.into(),
                 ConditionType::All => true.into(),""",
     """                ConditionType::Any => true.into(),
-                ConditionType::All => false.into(),""", "C06.R3:empty")
+                ConditionType::All => false.into(),""", "C06.R3:to_simple_expr:table")
 brk("c06-swap-fold", ["C06"], "src/query/condition.rs",
     """                    ConditionType::Any => out_expr.or(e),
                     ConditionType::All => out_expr.and(e),""",
     """                    ConditionType::Any => out_expr.and(e),
-                    ConditionType::All => out_expr.or(e),""", "C06.R3:fold")
+                    ConditionType::All => out_expr.or(e),""", "C06.R3:to_simple_expr:table")
 brk("c06-having-into-where", ["C06"], "src/query/select.rs", "        self.having.add_condition(condition.into_condition());", "        self.r#where.add_condition(condition.into_condition());", "C06.R5:api")
 ben("c06-benign-merge-single-any", ["C06"], "src/query/condition.rs",
     "                    if addition.condition_type == ConditionType::All && !addition.negate {",
